@@ -231,6 +231,7 @@ structure Skeleton where
   clNilErrorViaIsNil         : Bool  -- createClosure's wrapper turns the closure's last result into an `error` only under `!out[i].IsNil()` (a nil pointer of a concrete error type stays "no error")
   msgCodecPlain              : Bool  -- utils.Request/Response Marshal/Unmarshal hand the struct itself to the codec and do nothing else
   linkReturnsOnlyFatalSlot   : Bool  -- the variable Link returns is assigned from the fatal slot only
+  errBranchesHandled         : Bool  -- every `if err != nil { … }` of the library reports the error with one of its OWN statements (setErr / panic / return of an error / handing `err` on / storing it) and then leaves
   locksBalanced              : Bool  -- every function body releases what it locks on every path (no return while holding, branches agree, loops neutral, or `defer Unlock`)
   ucNoWaiting                : Bool  -- utils.Call contains nothing that can wait (no channel operation, lock, Once, goroutine)
   /- ---------------- C20 ---------------- -/
